@@ -5,6 +5,9 @@ classes is acyclic, no class is re-acquired while held, no synchronous guard is 
 and no guard is held across a blocking hand-off.  With a complete may-call graph and conservative guard
 liveness this is a sufficient condition for "no set of threads waits on each other through these locks".
 """
+import re
+
+from kvstatic import flow
 from kvstatic.locks import LockModel
 
 EXPLANATION = (
@@ -142,6 +145,15 @@ def run(ctx, prog):
             continue
         ctx.inst('C08.LOCK', 'edge', '%s→%s' % (h, a), True,
                  '%s (%d sites); on no cycle' % (m.edge_chain(w)[0], len(m.edge_all[(h, a)])))
+
+    # ---- upgrades: an upgradable guard's upgrade() waits for every plain reader of the same lock; the model adds an edge held → upgraded class for each other
+    # lock held at that point (a reader of the upgraded lock that waits for one of them closes a cycle although the nominal order is unchanged)
+    ups = [c for c in prog.all_calls() if c.callee and re.search(r'RwLockUpgradableReadGuard(<.*>)?::upgrade$', flow.short(c.callee)) and c.body.crate in ('kyrodb_engine', 'kyrodb_server')]
+    for c in ups:
+        others = sorted(set(h for (fn, h, u, loc) in m.upgrade_edges if loc == c.loc and fn == c.body.short))
+        ctx.inst('C08.LOCK', c.body.short, 'upgrade of an upgradable guard modelled as a blocking exclusive acquisition', True,
+                 'upgrade at %s with %s held' % (c.loc, others or 'no other lock'))
+    ctx.floor('C08.LOCK', 'upgrade sites', len(ups), 1, 'VectorCache::get')
 
     # ---- AWAIT
     coros = [b for b in prog.bodies.values() if any(blk['t']['k'] == 'yield' for blk in b.blocks)]
